@@ -16,6 +16,7 @@ import traceback
 VERIF = os.path.dirname(os.path.dirname(os.path.abspath(__file__)))
 REPO = os.environ.get('PYVC_REPO', '/repo')
 VENV_PY = '/venv/bin/python'
+OUT = os.environ.get('PYVC_OUT', VERIF)      # evidence/ and replays/ live here (scratch runs redirect it)
 
 
 def _worker(job):
@@ -75,9 +76,9 @@ def main():
     lock = load_json(os.path.join(VERIF, 'obligations.lock.json'), {})
     # a finding is "live" while its recorded witness still fails on the real code; only live findings restrict
     # an obligation to the complement of their class
-    os.makedirs(os.path.join(VERIF, 'replays', prop), exist_ok=True)
-    for f in os.listdir(os.path.join(VERIF, 'replays', prop)):
-        os.unlink(os.path.join(VERIF, 'replays', prop, f))
+    os.makedirs(os.path.join(OUT, 'replays', prop), exist_ok=True)
+    for f in os.listdir(os.path.join(OUT, 'replays', prop)):
+        os.unlink(os.path.join(OUT, 'replays', prop, f))
     env = dict(os.environ, PYTHONPATH='%s:%s' % (VERIF, REPO))
     live = []
     n_witness = 0
@@ -86,12 +87,12 @@ def main():
             p = subprocess.run([VENV_PY, os.path.join(VERIF, fnd['witness_script'])], env=dict(os.environ, PYTHONPATH=REPO),
                                cwd='/tmp', capture_output=True, text=True, timeout=300)
             n_witness += 1
-            with open(os.path.join(VERIF, 'replays', prop, 'known-%s.log' % fnd.get('id')), 'w') as fh:
+            with open(os.path.join(OUT, 'replays', prop, 'known-%s.log' % fnd.get('id')), 'w') as fh:
                 fh.write('exit=%d\n%s\n%s' % (p.returncode, p.stdout[-2000:], p.stderr[-2000:]))
             if p.returncode == 1:
                 live.append(fnd)
             continue
-        wfile = os.path.join(VERIF, 'replays', prop, 'known-%s.json' % fnd.get('id'))
+        wfile = os.path.join(OUT, 'replays', prop, 'known-%s.json' % fnd.get('id'))
         rp = dict(fnd['witness_replay'], property=prop, obligation=fnd['obligation'], modules=modules, finding=fnd.get('id'))
         with open(wfile, 'w') as fh:
             json.dump(rp, fh, indent=1)
@@ -143,8 +144,8 @@ def main():
             o['target'] = r['key']
             obligations['%s.%s' % (prop, oid)] = o
 
-    os.makedirs(os.path.join(VERIF, 'evidence'), exist_ok=True)
-    rdir = os.path.join(VERIF, 'replays', prop)
+    os.makedirs(os.path.join(OUT, 'evidence'), exist_ok=True)
+    rdir = os.path.join(OUT, 'replays', prop)
 
     # ---- lock: every locked obligation must be produced ---------------------------------------------------
     locked = lock.get(prop, [])
@@ -216,10 +217,10 @@ def main():
         with open(rfile, 'w') as f:
             json.dump(rp, f, indent=1, default=str)
         o['replay_status'] = status
-        o['replay_file'] = os.path.relpath(rfile, VERIF)
+        o['replay_file'] = os.path.relpath(rfile, OUT)
         tail = '' if status == 'reproduced' else ' no-failing-input-found'
         violations.append('VIOLATION property=%s replay=%s obligation=%s verdict=%s%s'
-                          % (prop, os.path.relpath(rfile, VERIF), oid, v, tail))
+                          % (prop, os.path.relpath(rfile, OUT), oid, v, tail))
     for oid in missing:
         tgt = None
         for k, msg in unsupported:
@@ -269,7 +270,7 @@ def main():
     }
     if degraded or unsupported or crashed:
         ev['coverage']['note'] = 'run degraded: some obligations could not be generated; not a full proof run'
-    with open(os.path.join(VERIF, 'evidence', '%s.json' % prop), 'w') as f:
+    with open(os.path.join(OUT, 'evidence', '%s.json' % prop), 'w') as f:
         json.dump(ev, f, indent=1, default=str)
 
     print('%s tier=%s targets=%d obligations=%d discharged=%d solver_ms=%d wall=%.1fs'
